@@ -213,7 +213,14 @@ func c13Extras(env *Env, tape *sim.Tape) *CaseOut {
 				data := []byte(fmt.Sprintf("payload of task %d call %d\n", ti, oi))
 				// the call runs in one scheduler turn: a task blocked in a real wait4 must not
 				// depend on a goroutine that is parked for the scheduler
-				op := &Op{Entry: EPlain, MT: []string{"text/x-cmd", "text/x-cmdfile", "text/x-cmdlate"}[tape.Draw(3)], In: data, NoYield: true}
+				mtc := []string{"text/x-cmd", "text/x-cmdfile", "text/x-cmdlate"}[tape.Draw(3)]
+				if oi == 0 && tape.Draw(2) == 0 {
+					// what a process does on its very FIRST use of a mechanism (lazy initialisation)
+					// is seen only once per process: make it likely that several tasks begin
+					// with the file-argument command
+					mtc = "text/x-cmdfile"
+				}
+				op := &Op{Entry: EPlain, MT: mtc, In: data, NoYield: true}
 				op.W, op.R = sim.NewSimWriter(nil), sim.NewSimReader(nil, data)
 				ops = append(ops, op)
 				all = append(all, op)
